@@ -507,7 +507,6 @@ type NXActionResubmit struct {
 func NewNXActionResubmit(inPort uint16) *NXActionResubmit {
 	a := new(NXActionResubmit)
 	a.NXActionHeader = NewNxActionHeader(NXAST_RESUBMIT)
-	a.Type = Type_Experimenter
 	a.Length = a.NXActionHeader.Len() + 6
 	a.InPort = inPort
 	a.pad = [3]byte{}
